@@ -303,3 +303,67 @@ def remargin(block, indent):
     pr.write_indented_block(adj)
     pr._flush_adjusted_lines()
     return st.getvalue()
+
+
+def decode_probe(raw, known):
+    from mako import lexer, parsetree, exceptions
+    import types
+
+    class StubCode:
+        def __init__(self, code, **kw):
+            self.code = code
+            self.declared_identifiers = set()
+            self.undeclared_identifiers = set()
+            self.args = []
+
+    saved = parsetree.ast
+    parsetree.ast = types.SimpleNamespace(PythonCode=StubCode, ArgumentList=StubCode, PythonFragment=StubCode,
+                                          FunctionDecl=StubCode, FunctionArgs=StubCode)
+    try:
+        lx = lexer.Lexer(raw, filename="t.html", input_encoding=known)
+        try:
+            lx.parse()
+        except exceptions.CompileException:
+            return ("exc",)
+        return ("ok", lx.encoding)
+    finally:
+        parsetree.ast = saved
+
+
+def render_probe(text, oe, as_unicode):
+    from mako.template import Template
+    t = Template("A${x}B", default_filters=[], output_encoding=oe, encoding_errors="strict")
+    try:
+        return ("ok", t.render_unicode(x=text) if as_unicode else t.render(x=text))
+    except UnicodeEncodeError:
+        return ("exc",)
+
+
+def module_roundtrip(enc, style):
+    """template file in encoding `enc` (declared by `style`) compiled through a module directory, rendered, then reloaded
+    from the module file by a fresh Template: returns list of (stage, rendered, expected)"""
+    import os
+    import shutil
+    import tempfile
+    from mako.template import Template
+    texts = {"utf-8": "café Ж €", "latin-1": "café ü", "cp1251": "Жж ш", "koi8-r": "Жж", "ascii": "plain"}
+    body = texts[enc]
+    src = ("## -*- coding: %s -*-\n" % enc if style in ("comment", "both") else "") + body + "${'!'}\n"
+    kw = {"input_encoding": enc} if style in ("input_encoding", "both") else {}
+    base = tempfile.mkdtemp(prefix="c18mod")
+    out = []
+    try:
+        f = os.path.join(base, "t.html")
+        with open(f, "wb") as fp:
+            fp.write(src.encode(enc))
+        for stage in ("generate", "reload"):
+            try:
+                got = Template(filename=f, module_directory=os.path.join(base, "mods"), **kw).render_unicode()
+            except Exception as e:
+                got = "raised %s: %s" % (type(e).__name__, e)
+            out.append((stage, got, body + "!\n"))
+        got = Template(filename=f, **kw).render_unicode()
+        out.append(("memory", got, body + "!\n"))
+    finally:
+        shutil.rmtree(base, ignore_errors=True)
+    return out
